@@ -52,8 +52,16 @@ D = {  # id: (caught_by, first_run, strengthening)
  "C19_4": (["C19"], "caught", None),
  "C10_3": (["C10"], "caught", None),
  "C10_4": (["C10"], "broken tie only (no failing input)", "harness/src/bin/c10.rs: user modules replacing built-in ones by name given at compile time and on reload, probe rules; Model/WireCase.v module-table model with two theorems; corpus witness"),
- "C13_3": ([], "missed", "pending with its owner: history-dependent sequences with cache-thrashing regexes compared with a fresh scanner (notes/C13.md)"),
- "C13_4": ([], "missed", "pending with its owner: sequences mixing inputs decided before the string scan and inputs needing it, full results compared with a fresh scanner (notes/C13.md)"),
+ "C13_3": (["C13"], "missed", "vlib/props/c13.py + harness/src/bin/c13.rs: case kind `seq` — sequences of different inputs on one scanner, every result compared in full with a scanner compiled for that scan alone, clones made before / after; thrash family of 30-45 inputs for a state-hungry regex"),
+ "C13_4": (["C13"], "missed", "same `seq` kind: inputs decided before the string scan mixed with inputs needing it, default parameters, match details compared"),
+ "C01_3": (["C01"], "caught", None),
+ "C01_4": (["C01"], "caught", None),
+ "C11_3": ([], "missed", "pending with its owner: fast mode x full matches x rule sets decidable without the scan, match lists compared with the per-region union"),
+ "C11_4": (["C11"], "caught", None),
+ "C12_3": (["C17 (broken tie)"], "missed by C12", "pending with its owner: module imports in A and B over several source texts"),
+ "C12_4": (["C05", "C15 (broken tie)"], "missed by C12", "pending with its owner: A with a true global rule followed by a false one while B keeps another namespace enabled"),
+ "C14_3": (["C14"], "caught", None),
+ "C14_4": (["C11", "C14 (broken tie)"], "broken tie only for C14 (C11 concrete)", "pending with its owner"),
  "C07_1": (["C07"], "caught at one seed in three", "vlib/props/c07.py: generator atom `for K of (set) : (<N of (set2)> and/or <anonymous reference>)`; corpus replay"),
  "C07_2": (["C07"], "caught at one seed in three", "vlib/props/c07.py: string family of class-only single-length fullword regexes (raw path) with members placed end to end after an alphanumeric byte; corpus replay"),
 }
